@@ -26,23 +26,23 @@ SCOPE = "svgdx::context::Scope"
 
 
 def run(prog, chk):
-    scope_pairing(prog, chk, "A5.scope")
-    stack_writers(prog, chk)
-    innermost_writes(prog, chk)
-    parallel_assignment(prog, chk)
-    lookup_order(prog, chk)
-    scope_vars_complete(prog, chk)
-    reuse_overrides_evaluated(prog, chk)
-    own_attributes_outside_scope(prog, chk)
-    own_attributes_before_content(prog, chk)
-    pops_follow_pushes(prog, chk)
-    scan_continues_past_undefined(prog, chk)
-    reuse_scope_encloses_instance(prog, chk)
-    reuse_reads_evaluated_element(prog, chk)
+    chk.rule(scope_pairing, prog, chk, "A5.scope")
+    chk.rule(stack_writers, prog, chk)
+    chk.rule(innermost_writes, prog, chk)
+    chk.rule(parallel_assignment, prog, chk)
+    chk.rule(lookup_order, prog, chk)
+    chk.rule(scope_vars_complete, prog, chk)
+    chk.rule(reuse_overrides_evaluated, prog, chk)
+    chk.rule(own_attributes_outside_scope, prog, chk)
+    chk.rule(own_attributes_before_content, prog, chk)
+    chk.rule(pops_follow_pushes, prog, chk)
+    chk.rule(scan_continues_past_undefined, prog, chk)
+    chk.rule(reuse_scope_encloses_instance, prog, chk)
+    chk.rule(reuse_reads_evaluated_element, prog, chk)
     from props import strops
-    strops.check_for(prog, chk, "C15")  # A14.str-ops: where a `$name` ends is a reviewed inventory of searches and character classes
+    chk.rule(strops.check_for, prog, chk, "C15")  # A14.str-ops: where a `$name` ends is a reviewed inventory of searches and character classes
     from props import C18
-    C18.template_source(prog, chk)  # a <reuse> copies the element as written: what $k means inside the copy is decided at the reuse site, not at the definition
+    chk.rule(C18.template_source, prog, chk)  # a <reuse> copies the element as written: what $k means inside the copy is decided at the reuse site, not at the definition
 
 
 def own_attributes_before_content(prog, chk):
